@@ -3,7 +3,7 @@
 From Coq Require Import String.
 From Coq Require Import List Bool Arith Reals.
 From NV Require Import Base.Exn Gen.Tables Model.FitCore Model.Steps Model.Features
-                       Proofs.FitCoreP Proofs.StepsP Proofs.PocP Proofs.FeaturesP Proofs.FeaturesMoreP.
+                       Proofs.FitCoreP Proofs.StepsP Proofs.PocP Proofs.FeaturesP Proofs.FeaturesMoreP Model.FeaturesG Proofs.FeaturesGP Model.FeaturesG2 Proofs.FeaturesG2P.
 Import ListNotations.
 Local Open Scope R_scope.
 
@@ -95,3 +95,46 @@ Theorem C17_scale_invariant_cp_curvature : forall k cp x y, 0 < k -> y <> [] ->
   r_list_max y <> 0 ->
   r_cp_curvature_core cp x (map (fun v => k * v) y) = r_cp_curvature_core cp x y.
 Proof. exact cp_curvature_core_scale. Qed.
+
+(* the features that smooth with a gaussian filter before they count or sum gradients
+   (Model/FeaturesG.v), for EVERY filter that commutes with positive factors *)
+Theorem C17_scale_invariant_apr_flatness : forall gauss,
+  (forall s k l, 0 < k -> gauss s (map (fun v => k * v) l) = map (fun v => k * v) (gauss s l)) ->
+  forall k cp x res, 0 < k ->
+  r_apr_flatness gauss cp x (map (fun v => k * v) res) = r_apr_flatness gauss cp x res.
+Proof. exact apr_flatness_scale. Qed.
+
+Theorem C17_fraction_apr_flatness : forall gauss cp x res p q v,
+  r_flatness_counts gauss cp x res = Some (p, q) -> (0 < p + q)%nat ->
+  r_apr_flatness gauss cp x res = Some v -> 0 <= v <= 1.
+Proof. exact apr_flatness_range. Qed.
+
+Theorem C17_scale_invariant_idt_monotony : forall gauss,
+  (forall s k l, 0 < k -> gauss s (map (fun v => k * v) l) = map (fun v => k * v) (gauss s l)) ->
+  forall k cp x y, 0 < k ->
+  (forall g, g = r_np_gradient (gauss 2%nat (rows R (fun v => r_ltb v cp) x y)) ->
+     r_tsum (filter (fun v => r_ltb 0 v) g) <> 0) ->
+  r_idt_monotony_core gauss cp x (map (fun v => k * v) y) = r_idt_monotony_core gauss cp x y.
+Proof. exact idt_monotony_core_scale. Qed.
+
+(* spike count, spike area and the residual maxima (Model/FeaturesG2.v; oracles: the filter
+   and the square root inside np.std, which over R is sqrt) *)
+Theorem C17_scale_invariant_spikes_count : forall gauss,
+  (forall s k l, 0 < k -> gauss s (map (fun v => k * v) l) = map (fun v => k * v) (gauss s l)) ->
+  forall k cp x res, 0 < k ->
+  r_spikes_count gauss cp x (map (fun v => k * v) res) = r_spikes_count gauss cp x res.
+Proof. exact spikes_count_scale. Qed.
+
+Theorem C17_scale_invariant_spike_area : forall gauss,
+  (forall s k l, 0 < k -> gauss s (map (fun v => k * v) l) = map (fun v => k * v) (gauss s l)) ->
+  forall k cp x y res, 0 < k -> y <> [] -> r_list_max y <> 0 ->
+  r_spike_area_core gauss cp x (map (fun v => k * v) y) (map (fun v => k * v) res)
+  = r_spike_area_core gauss cp x y res.
+Proof. exact spike_area_core_scale. Qed.
+
+Theorem C17_scale_invariant_maxima_75 : forall gauss,
+  (forall s k l, 0 < k -> gauss s (map (fun v => k * v) l) = map (fun v => k * v) (gauss s l)) ->
+  forall k cp x y fit, 0 < k -> y <> [] -> r_list_max y <> 0 ->
+  r_maxima_75_core gauss cp x (map (fun v => k * v) y) (map (fun v => k * v) fit)
+  = r_maxima_75_core gauss cp x y fit.
+Proof. exact maxima_75_core_scale. Qed.
